@@ -43,12 +43,16 @@ def _same_length(en, a, b):
 
 
 def _elementwise(en, a, b, f, name):
+  # results are new arrays: the operands' getters are captured now, so a later in-place store into an operand does not leak into them
   if _is_seq(a) and _is_seq(b):
     _same_length(en, a, b)
-    return E.SymSeq(a.length, lambda i: f(a.get(i), b.get(i)), None, f'({a.name}{name}{b.name})')
+    ga, gb = a.get, b.get
+    return E.SymSeq(a.length, lambda i: f(ga(i), gb(i)), None, f'({a.name}{name}{b.name})')
   if _is_seq(a):
-    return E.SymSeq(a.length, lambda i: f(a.get(i), b), None, f'({a.name}{name}s)')
-  return E.SymSeq(b.length, lambda i: f(a, b.get(i)), None, f'(s{name}{b.name})')
+    ga = a.get
+    return E.SymSeq(a.length, lambda i: f(ga(i), b), None, f'({a.name}{name}s)')
+  gb = b.get
+  return E.SymSeq(b.length, lambda i: f(a, gb(i)), None, f'(s{name}{b.name})')
 
 
 def _arith(op):
@@ -119,10 +123,11 @@ def h_pad(en, x, cfg, *a, **k):
   (b, e), = [tuple(c) for c in cfg]
   n = x.length
   b_, e_ = E.to_z3(b), E.to_z3(e)
+  gx = x.get
 
   def get(i):
     i = E.to_z3(i)
-    v = x.get(i - b_)
+    v = gx(i - b_)
     zero = z3.RealVal(0) if z3.is_real(v) else (z3.IntVal(0) if z3.is_int(v) else z3.BoolVal(False))
     return z3.If(z3.And(i >= b_, i < b_ + E.to_z3(n)), v, zero)
   return E.SymSeq(z3.simplify(E.to_z3(n) + b_ + e_), get, None, f'pad({x.name})')
@@ -133,7 +138,8 @@ def h_where(en, c, a, b):
     c_ = E.to_z3(c)
     return z3.If(c_ if z3.is_bool(c_) else c_ != 0, _num(a), _num(b))
   length = next(v.length for v in (a, b, c) if _is_seq(v))
-  g = lambda v, i: v.get(i) if _is_seq(v) else v
+  getters = {id(v): v.get for v in (a, b, c) if _is_seq(v)}
+  g = lambda v, i: getters[id(v)](i) if _is_seq(v) else v
 
   def get(i):
     ci = E.to_z3(g(c, i))
@@ -237,12 +243,13 @@ def h_concatenate(en, parts, axis=0):
   offs = [z3.IntVal(0)]
   for s in seqs:
     offs.append(z3.simplify(offs[-1] + E.to_z3(s.length)))
+  gets = [s.get for s in seqs]
 
   def get(i):
     i = E.to_z3(i)
-    r = seqs[-1].get(i - offs[len(seqs) - 1])
+    r = gets[-1](i - offs[len(seqs) - 1])
     for k in range(len(seqs) - 2, -1, -1):
-      r = z3.If(i < offs[k + 1], seqs[k].get(i - offs[k]), r)
+      r = z3.If(i < offs[k + 1], gets[k](i - offs[k]), r)
     return r
   return E.SymSeq(offs[-1], get, None, 'concat')
 
@@ -262,10 +269,15 @@ def h_array(en, x, *a, **k):
   return E.SymSeq(len(items), lambda i: _index_list(en, items, i), None, 'array')
 
 
-def h_diff(en, x, *a, **k):
-  if not _is_seq(x):
-    raise E.Unsupported('diff of non-vector')
-  return E.SymSeq(z3.simplify(E.to_z3(x.length) - 1), lambda i: x.get(E.to_z3(i) + 1) - x.get(i), None, f'diff({x.name})')
+def h_diff(en, x, *a, append=None, **k):
+  if not _is_seq(x) or a or k:
+    raise E.Unsupported('diff of non-vector / with n, axis or prepend')
+  if append is not None:
+    if _is_seq(append):
+      raise E.Unsupported('diff(append=vector)')
+    x = h_concatenate(en, [x, [append]])
+  gx = x.get
+  return E.SymSeq(z3.simplify(E.to_z3(x.length) - 1), lambda i: gx(E.to_z3(i) + 1) - gx(i), None, f'diff({x.name})')
 
 
 def _install_at(en):
